@@ -8,15 +8,75 @@ from harness.core import Outcome
 
 ID = "C15"
 LEAN_TARGETS = ["BeyondVerif.Props.C15", "BeyondVerif.Witness.C15"]
-THEOREMS = []
-LEVEL_TEXT = ""
-LEVEL_NOTE = ""
+THEOREMS = [
+    "BeyondVerif.C15.names_six_distinct",
+    "BeyondVerif.C15.access_name_index_partial",
+    "BeyondVerif.C15.access_alias_index",
+    "BeyondVerif.C15.access_foreign_refused",
+    "BeyondVerif.C15.access_slot_sound",
+    "BeyondVerif.C15.setForm_unknown_atomic",
+    "BeyondVerif.C15.setForm_error_atomic",
+    "BeyondVerif.C15.setFrame_unknown_atomic",
+    "BeyondVerif.C15.setFrameBasic_error_atomic",
+    "BeyondVerif.C15.setFrame_error_cases",
+    "BeyondVerif.C15.asOrbit_receiver_unchanged",
+    "BeyondVerif.C15.asSV_receiver_unchanged",
+    "BeyondVerif.C15.as_orbit_as_statevector_id",
+    "BeyondVerif.C15.asOrbit_same_references",
+    "BeyondVerif.C15.copy_receiver_unchanged",
+    "BeyondVerif.C15.copy_separate_depth1",
+    "BeyondVerif.C15.copyForm_receiver_unchanged",
+    "BeyondVerif.Heap.copyRef_ok",
+    "BeyondVerif.C15W.copy_shares_maneuver_objects_and_nested_containers",
+    "BeyondVerif.C15W.as_orbit_shares_cov",
+    "BeyondVerif.C15W.cylindrical_theta_refused",
+    "BeyondVerif.C15W.pickle_gives_unusable_object",
+    "BeyondVerif.C15W.pickle_then_copy_raises",
+]
+LEVEL_TEXT = ("Lean theorems over an object-graph (heap) model of StateVector/Orbit/Cov: for every heap and every receiver, copy(), copy(form=..), as_orbit, "
+              "as_statevector write no pre-existing cell (receiver unchanged, also when the conversion fails); after copy() the object, its buffer, its _data and "
+              "every first-level container/covariance/propagator are new cells (only maneuver objects survive) - proved for every copy depth by induction; "
+              "every failing form change leaves the heap identical, a failing frame transformation rewrites only the coordinate buffer with a value denoting the "
+              "same physical state; StateVector->Orbit->StateVector gives back the same values and the same _data entries; name/alias/index resolution decided "
+              "over the tables regenerated from beyond.orbits.forms on every run. Kernel-checked counter-witnesses for the clauses the code falsifies. The model "
+              "agrees exactly (object-identity partition, labels, bit-identical buffers) with the real classes on random operation sequences.")
+LEVEL_NOTE = ("copy(frame=..) receiver-unchanged with a following covariance, the unreachability of a covariance failure after a successful state-vector frame change, "
+              "and the pickle round trip as an isomorphism are open obligations (correspondence + oracle only); the full-depth separation clause, pickle and the "
+              "cylindrical names are false of the code (16 known-finding families); heap model hand-written, tied by the correspondence run; Lean kernel + propext/Classical.choice/Quot.sound")
 TECHNIQUE = "Lean 4 proof over an object-graph (heap) model + kernel decide on regenerated name/alias tables; exact model/implementation correspondence"
-TRUSTED = []
-ASSUMPTIONS = []
-NOT_COVERED = []
-OPEN = []
-RULE = ""
+TRUSTED = [
+    "harness/props/C15.py extract: Form.param_names, Form.alt, forms._cache, _cache_param_names, the frame registry and the property names of the classes, read from live objects (cross-checked against the Form(...) literals in forms.py) -> Generated/FormTables.lean",
+    "correspondence: real StateVector/Orbit/Cov objects vs the compiled Lean model on identical operation sequences; after every operation the whole object graph reachable from all variables is compared: "
+    "partition of mutable objects by id(), kinds, keys, labels, error kind, and every coordinate buffer bit for bit against the pure evaluation (Form.__call__, Frame.transform on fresh objects) of the model's symbolic value",
+    "CPython object identity (id / is), pickle memo semantics, numpy base/owndata semantics",
+]
+ASSUMPTIONS = [
+    "the heap model Model/Heap.lean is hand-written; it is tied to statevector.py / orbit.py / cov.py by the exact correspondence run only",
+    "coordinate values are symbolic in the model (initial vector + sequence of conversions/assignments); that a form conversion does not move the physical state (phys erases it) is property C01, not proved here",
+    "a Cov's own ndarray buffer and _data dict are kept inside its cell (Cov.__new__ creates both afresh); the correspondence asserts on every dump that no two objects share them",
+    "dict key order is not modelled (both dumps sort keys); 'cov: None' and an empty maneuver list created by the getters on first read are treated as absent",
+    "Date, Form and Frame objects are treated as immutable values identified by name",
+]
+NOT_COVERED = [
+    "the full-depth clause 'a copy shares no mutable data' is false of the code (maneuver objects, nested containers; as_orbit/as_statevector share everything mutable): known findings, Witness/C15.lean",
+    "pickling preserves a working object: false of the code (self.base is None, Cov loses _data): known findings, Witness/C15.lean",
+    "cylindrical theta/theta_dot by name: false of the code: known finding",
+    "numpy views (sv[:], sv.view()) share the buffer with their parent by numpy's own semantics and are outside the model; setting the form of such a view rewrites the parent's values but not its form label (observed, not filed: a view is not a copy)",
+    "Cov frame conversions to/from the Hill frame beyond the error kind; numerical content of covariance rotations (C14)",
+    "Orbit.propagate / Infos caches (C08, C01)",
+]
+OPEN = [
+    "copyFrame_receiver_unchanged: proved for copy() and copy(form=..) for all heaps; for copy(frame=..) the state-vector part writes only new cells (same argument), but the following covariance and its private state "
+    "need the invariant 'every address stored in a new sv/cov cell is new' through copyItems/copyRef - not proved; covered by the correspondence (receiver dumps compared after every op) and the oracle (receiver-changed-*)",
+    "setFrame_error_cases third case (covariance part fails after the state vector was changed): not proved unreachable from constructor-built states; no occurrence in correspondence or oracle runs",
+    "pickle_id: only the failure of the round trip is witnessed; 'the unpickled graph is isomorphic to the original up to the owned/ok flags' is compared exactly by the correspondence but not proved for all heaps",
+    "copy_separate_depth1 is relative to getSV succeeding on the new object (form/frame entries survive the copy): shown by example, not as a general lemma",
+]
+RULE = ("correspondence: (a) exhaustive name resolution: every form x every reserved name, alias and two free keys; (b) random sequences of 1-2 constructions (form, frame incl. Hill, "
+        "Orbit or StateVector, with/without metadata containers, maneuvers, covariance in own/local/other frame) followed by 1-6 operations drawn from copy, copy(form), copy(frame), as_orbit, as_statevector, "
+        "form=, frame= (incl. unknown names, Hill, aliases), setattr/setitem by name/alias/foreign name/free key, index assignment, cov.frame=, maneuvers.append, cov=, pickle round trip; "
+        "a case is non-trivial when it has >= 2 operations; distinct = distinct request line. oracle: for every converting method x every in-place mutation x both directions, deep snapshot of the other object; "
+        "failing setters; name/alias/index on every form; pickle and StateVector<->Orbit round trips")
 
 FRAMES = ["EME2000", "MOD", "TOD", "TEME", "PEF", "ITRF"]
 FORMS = ["cartesian", "keplerian", "spherical", "keplerian_mean", "keplerian_eccentric", "keplerian_circular",
